@@ -373,24 +373,26 @@ func (p *Persister) flushNow(ctx context.Context, batch map[string]persistData, 
 	if err != nil {
 		// TODO make sure error is propagated back to the runtime and Conduit shuts down
 		p.logger.Err(ctx, err).Msg("error creating new transaction")
-		return
-	}
-
-	defer tx.Discard()
-	for id, data := range batch {
-		setErr := data.storeFunc(ctx)
-		if setErr != nil {
-			p.logger.Err(ctx, setErr).
-				Str(log.ConnectorIDField, id).
-				Msg("error while saving connector")
-			// A connector that could not be written must not be reported as
-			// persisted: fail the whole flush, the transaction is discarded and
-			// every callback hears about the error.
-			err = setErr
+		// Do not return here: the callbacks below still have to hear about the
+		// failure and callbacksDone has to be closed, otherwise
+		// WaitPendingWrites blocks forever.
+	} else {
+		defer tx.Discard()
+		for id, data := range batch {
+			setErr := data.storeFunc(ctx)
+			if setErr != nil {
+				p.logger.Err(ctx, setErr).
+					Str(log.ConnectorIDField, id).
+					Msg("error while saving connector")
+				// A connector that could not be written must not be reported as
+				// persisted: fail the whole flush, the transaction is discarded and
+				// every callback hears about the error.
+				err = setErr
+			}
 		}
-	}
-	if err == nil {
-		err = tx.Commit()
+		if err == nil {
+			err = tx.Commit()
+		}
 	}
 	// Track every callback this flush spawns so WaitPendingWrites can observe
 	// not just "the write landed" but "every side effect the write's callback
